@@ -140,6 +140,77 @@ Fixpoint aliases_after (p : prec) (ups : list (nat * ext_entry)) (j : nat) (a : 
         (if Nat.eqb id j then match xe_aliases e with Some l => layered a l p | None => a end else a)
   end.
 
+(* [x] is the SI form of [b] for the prefix [p] under the prefix tables [pt] / [st]: its names and
+   symbols are the prefixed names and symbols of [b] as they are now, its ratio the power of ten;
+   its aliases are its own *)
+Definition is_form (pt st : ptable) (p : sipre) (b x : cunit) : Prop :=
+  names x = prefixed (pt p) (names b) /\ symbols x = prefixed (st p) (symbols b) /\
+  ratio x = (ratio b * sipre_ratio p)%Q /\ difference x = difference b /\
+  quantity x = quantity b /\ usystem x = usystem b.
+
+(* unit [j] after the entries [ups] of one extend block (each entry resolved to the unit it
+   addresses): the entries addressed to [j], each applied by the precedence of the block *)
+Fixpoint unit_after (p : prec) (ups : list (nat * ext_entry)) (j : nat) (u : cunit) : cunit :=
+  match ups with
+  | [] => u
+  | (id, e) :: r => unit_after p r j (if Nat.eqb id j then layered_unit u e p else u)
+  end.
+
+(* an entry that only gives aliases (the only edit allowed on an SI form) *)
+Definition alias_only (e : ext_entry) : Prop :=
+  xe_ratio e = None /\ xe_difference e = None /\ xe_names e = None /\ xe_symbols e = None.
+
+(* ---- fractions: what Fractions::config must answer for a unit after all the layers ----
+   every field is the first one defined by: the last per-unit entry whose key is a key of the unit,
+   the last setting of its quantity, of its system, of `all` - each taken over ALL the layers;
+   a unit without entry gets the most specific table entry that exists (quantity, system, all) *)
+Definition last_quantity (q : pq) (layers : list fractions) : option frac_wrapper :=
+  fold_left (fun acc fr =>
+               fold_left (fun acc e => if pq_eqb (fst e) q then Some (snd e) else acc) (fr_quantity fr) acc)
+            layers None.
+
+Definition last_unit_entry (c : converter) (t : nat) (layers : list fractions) : option frac_wrapper :=
+  fold_left (fun acc fr =>
+               fold_left (fun acc e => match find_unit c (fst e) with
+                                       | Some i => if Nat.eqb i t then Some (snd e) else acc
+                                       | None => acc
+                                       end) (fr_unit fr) acc)
+            layers None.
+
+Definition system_setting (layers : list fractions) (s : option system) : option frac_wrapper :=
+  match s with
+  | Some Metric => last_set fr_metric layers None
+  | Some Imperial => last_set fr_imperial layers None
+  | None => None
+  end.
+
+Fixpoint first_defined {A} (sel : frac_helper -> option A) (l : list (option frac_wrapper)) : option A :=
+  match l with
+  | [] => None
+  | Some w :: r => match sel (fw_get w) with Some x => Some x | None => first_defined sel r end
+  | None :: r => first_defined sel r
+  end.
+
+Definition resolved_fractions (files : list units_file) (c : converter) (t : nat) (u : cunit) : fcfg :=
+  let layers := fractions_layers files in
+  let q := last_quantity (quantity u) layers in
+  let s := system_setting layers (usystem u) in
+  let a := last_set fr_all layers None in
+  match last_unit_entry c t layers with
+  | Some w =>
+      let l := [Some w; q; s; a] in
+      fh_define {| fh_enabled := first_defined fh_enabled l; fh_accuracy := first_defined fh_accuracy l;
+                   fh_max_den := first_defined fh_max_den l; fh_max_whole := first_defined fh_max_whole l |}
+  | None =>
+      match q, s, a with
+      | Some w, _, _ => fh_define (fw_get w)
+      | None, Some w, _ => fh_define (fw_get w)
+      | None, None, Some w => fh_define (fw_get w)
+      | None, None, None => fh_define fh_none
+      end
+  end.
+
+
 (* ---- the declared units, in the order the builder registers them -------- *)
 
 Definition entries_of (d : units_decl) : list (option system * unit_entry) :=
